@@ -58,9 +58,9 @@ ASSUMPTIONS = ['ASCII names (the VPK format carries nothing else); "letter case"
 JOBS = {'quick': 4, 'thorough': 16}
 
 FOLDERS = ['', '', 'mat', 'mat', 'mat2', 'materials', 'materials/models', 'mat/sub', 'mat/sub2', 'scripts', 'a', 'a/b',
-           'a/bc', 'sound/vo', 'materials/models/props']
+           'a/bc', 'sound/vo', 'materials/models/props', 'long/' + 'd' * 140, 'a/' + 'q' * 200 + '/z']
 BASES = ['x', 'x.vmt', 'x.vmt.bak', 'a.txt', 'a2.txt', 'd.txt', 'readme', 'b.txt', 'bc', 'models.txt', 'sub.txt', 'mat.txt',
-         'my file.txt', 'x_y-z.vtf']
+         'my file.txt', 'x_y-z.vtf', 'n' * 180 + '.txt', 'e.' + 'x' * 130]
 NON_FOLDERS = ['ma', 'mat3', 'materials/mod', 'mat/su', 'nothere', 'a/b/c/d', 'scripts2']
 
 
